@@ -83,7 +83,7 @@ pub fn corr(dir: &str, seed: u64, tier: &str) -> Report {
     }
     let mut distinct = BTreeSet::new();
     for (w, q) in &words {
-        let up = w.to_uppercase();
+        let up = w.to_ascii_uppercase();
         writeln!(req, "kw\t{}\t{}\t{}", hex(w), hex(&up), q.map(|c| format!("{:x}", c as u32)).unwrap_or("-".into())).unwrap();
         let ans = match guard(|| {
             let t = Token::make_word(w, *q);
